@@ -149,7 +149,29 @@ func checkC07(w *Worker) {
 					return
 				}
 			}
-			for _, el := range []string{"cal", "fat"} {
+			// X ranges over the elements and over names that are something else as well: every logged food (in the
+			// book or not) and every recipe of the book - all reports must still agree on what "X" amounts to
+			singles := []string{"cal", "fat"}
+			if !large {
+				seenX := map[string]bool{"cal": true, "fat": true}
+				for _, d := range lg {
+					for _, e := range d.Entries {
+						if !seenX[e.Name] {
+							seenX[e.Name] = true
+							singles = append(singles, e.Name)
+						}
+					}
+				}
+				for _, r := range book {
+					if !seenX[r.Name] {
+						seenX[r.Name] = true
+						singles = append(singles, r.Name)
+					}
+				}
+			} else {
+				singles = append(singles, c07Foods[0], c07Foods[1])
+			}
+			for _, el := range singles {
 				sOut := run("reg", "-s", el)
 				bOut := run("bal", "-s", el)
 				if failed {
